@@ -39,6 +39,7 @@ type Case struct {
 	Items        []Item
 	Method, Path string
 	Repeat       int  `json:",omitempty"` // build and run this many times (map-order dependent behaviour)
+	Late         int  `json:",omitempty"` // the last Late top-level items are registered after the app served a request, followed by RebuildTree
 	Started      bool `json:",omitempty"` // the app served a request before anything was registered or mounted (registration after the first start)
 	// RootMethods: the root app's Config.RequestMethods: 0 = default, 1 = GET and POST only, 2 = default plus PURGE,
 	// 3 = POST, GET, HEAD (another order). Sub-apps are created with the defaults, as fiber.New() does; the routes only
@@ -192,11 +193,24 @@ func runOne(c Case, mode string) (out outcome, panicked string) {
 	if c.Started {
 		vk.Do(app, "GET", "/warm-up") // runs the start-up processing with nothing registered yet
 	}
-	switch mode {
-	case "flat":
-		buildFlat(app, "", false, c.Items, o, false)
-	default:
-		build(app, c.Items, o, mode, cfg, false)
+	reg := func(items []Item) {
+		switch mode {
+		case "flat":
+			buildFlat(app, "", false, items, o, false)
+		default:
+			build(app, items, o, mode, cfg, false)
+		}
+	}
+	if c.Late > 0 && c.Late < len(c.Items) {
+		// the table grows while the app is in service: the first items, a served request, the remaining items and the
+		// documented RebuildTree
+		reg(c.Items[:len(c.Items)-c.Late])
+		vk.Do(app, "GET", "/warm-up")
+		o.trace = nil
+		reg(c.Items[len(c.Items)-c.Late:])
+		app.RebuildTree()
+	} else {
+		reg(c.Items)
 	}
 	resp := vk.Do(app, c.Method, c.Path)
 	out.s = fmt.Sprintf("trace=%v status=%d body=%q", o.trace, resp.Response.StatusCode(), resp.Response.Body())
@@ -406,6 +420,9 @@ func genCase(t *rapid.T) Case {
 	c := Case{CS: rapid.Bool().Draw(t, "cs"), Strict: rapid.Bool().Draw(t, "strict"), Started: rapid.IntRange(0, 4).Draw(t, "started") == 0}
 	g := &gen{t: t, used: map[string]bool{}, nested: map[string]bool{}}
 	c.Items = g.items(rapid.IntRange(1, 3).Draw(t, "depth"), "")
+	if len(c.Items) > 1 && rapid.IntRange(0, 3).Draw(t, "late") == 0 {
+		c.Late = rapid.IntRange(1, len(c.Items)-1).Draw(t, "nlate")
+	}
 	c.Method = rapid.SampledFrom([]string{"GET", "POST"}).Draw(t, "m")
 	if rapid.IntRange(0, 3).Draw(t, "rootmethods") == 0 {
 		c.RootMethods = rapid.IntRange(1, 3).Draw(t, "rootmethodsv")
